@@ -223,10 +223,18 @@ let handle_file c =
        end
      end;
      let decoded = decode_file dec f in
+     if prop = "C01" && sorted_input && es <> [] then begin
+       match decoded with
+       | Done ((m, _), nodes) ->
+         spec_ok c "C01.wf_store" (store_wf nodes m.m_root m.m_levels) "the file is not a well-formed store (hypotheses of the reader refinement)"
+       | _ -> spec_ok c "C01.wf_store" false "file does not decode"
+     end;
      if prop = "C09" && sorted_input then begin
        (match decoded with
         | Done ((m, des), nodes) ->
           spec_ok c "C09.decode" (entries_hash des = spec_hash) "independent decoder recovers other entries";
+          if es <> [] then
+            spec_ok c "C09.wf_store" (store_wf nodes m.m_root m.m_levels) "the file is not a well-formed store (hypotheses of the reader refinement)";
           spec_ok c "C09.trailer" (m.m_version = FormatV2 && m.m_codec = cfg.wc_codec && int_of_n m.m_count = List.length es
                                    && m.m_levels = cfg.wc_levels) "trailer fields";
           (* footer offset tables: first 0, one per interval *)
@@ -336,6 +344,12 @@ let handle_hist c =
       let is_v1 = hex_of_bytes magic_v1 = "4c4d3276" in
       spec_ok c "C10.open" (get c "meta" = [(if is_v1 then "0" else "1"); string_of_n cfg.wc_codec; string_of_int (List.length es)])
         ("open reports " ^ String.concat " " (get c "meta"))
+    end;
+    if es <> [] then begin
+      match decode_file dec file with
+      | Done ((_, _), nodes) ->
+        spec_ok c (prop ^ ".wf_store") (store_wf nodes m.m_root m.m_levels) "the file is not a well-formed store (hypotheses of the reader refinement)"
+      | _ -> spec_ok c (prop ^ ".wf_store") false "file does not decode"
     end;
     let load = memo_load (load_block dec file m.m_codec) in
     let step st o = cstep load m.m_root m.m_levels st o in
